@@ -24,6 +24,9 @@ Structured ==
   \cup Pick(PerClass, {[hdr |-> NoHdr, decls |-> <<u, t>>] : t \in T, u \in U})
   \cup Pick(PerClass, {[hdr |-> h, decls |-> <<t, u>>] : h \in Headers, t \in T, u \in U4})
   \cup Pick(PerClass, {[hdr |-> h, decls |-> <<t>>] : h \in Headers, t \in T})
+  \* two touched declarations (two changes of one patch) around an untouched, commented one
+  \cup Pick(PerClass, {[hdr |-> NoHdr, decls |-> <<t1, u, t2>>] : t1, t2 \in {t \in T : t.touch = "decl" /\ t.doc = "none" /\ t.trail = "none"},
+                                                                     u \in {x \in U : x.inner = "eol" /\ x.gap = "free"}})
 VARIABLE emitted
 EmitInit == emitted = ndJsonSerialize(OutFile, SetToSeq(Sample \cup Structured))
 EmitSpec == EmitInit /\ [][UNCHANGED emitted]_emitted
